@@ -217,7 +217,9 @@ def run(pid, tier, seed, t0, asbuilt=None):
     model_ok = mc.finished and mc.violated is None
     live = None
     if pid == "C03":
-        lc = dict(consts, NReq=2 if tier == "quick" else 3, MaxDial=2 if tier == "quick" else 3)
+        # liveness checking is far more expensive than safety: 2 requests (the dial bound must be >= the number of
+        # requests, else a request blocked by the bound looks stranded); the 3-request space is covered by NoOrphan
+        lc = dict(consts, NReq=2, MaxDial=2 if tier == "quick" else 3, MaxIdles="{1}" if tier == "quick" else "{1, 2}")
         cfgl = f"_{pid}_{tier}_live.cfg"
         write_cfg(os.path.join(vlib.SPEC, cfgl), lc, "", "", fair=True)
         live = vlib.tlc("MC_Pool.tla", cfgl, pid, workers=8, timeout=3400)
